@@ -7,11 +7,12 @@ def sname(i):
     return "S%d" % i
 
 
-def law_dict(law, idx, named, params_out, explicit_species=False):
-    """propensity type + dictionary for a RateLaws law record; named parameters are collected in params_out."""
+def law_dict(law, idx, named, params_out, explicit_species=False, kname=None):
+    """propensity type + dictionary for a RateLaws law record; named parameters are collected in params_out.
+    kname: another name for the rate constant k (identifiers that look like generated element ids)."""
     def val(key, v):
         if named:
-            nm = "%s_r%d" % (key, idx)
+            nm = kname if (kname and key == "k") else "%s_r%d" % (key, idx)
             params_out[nm] = f(v)
             return nm
         return f(v)
